@@ -448,11 +448,11 @@ func genBoundary(env *Env, rng *RNG) {
 	genNextOpts = genOpts{}
 }
 
-// othersUntouched: some OTHER genesis validator has neither started an opt-out nor undelegated any of its own stake. The
+// othersUntouched: some OTHER genesis validator has neither started an opt-out nor undelegated any of its own stake nor is jailed. The
 // histories never empty the validator set (a chain without validators has stopped; there is nothing to export).
 func (w *genWorld) othersUntouched(g int) bool {
 	for h := 0; h < w.c.Cfg.NOperators; h++ {
-		if h != g && !w.optOut[h] && w.selfUnd[h] == 0 {
+		if h != g && !w.optOut[h] && w.selfUnd[h] == 0 && !w.jailed[h] {
 			return true
 		}
 	}
